@@ -11,15 +11,15 @@ LEAN = os.path.join(os.path.dirname(HERE), "lean")
 GEN = ["translator_no_fallback", "gen_next_atom_state_eq", "gen_next_branch_state_eq", "gen_next_ring_state_eq"]
 
 STATIC = {
-    "C01": {"use_props": ["C01w"], "extra_modules": ["SelfiesVerif.Proofs.GenEq"], "extra_theorems": GEN,
+    "C01": {"use_props": ["C01w", "C01r"], "extra_modules": ["SelfiesVerif.Proofs.GenEq"], "extra_theorems": GEN,
             "not_proved": ["C01_ring_labels_legal (labels always in 1..99) is FALSE on the unchanged tree (finding F1: > 99 ring bonds); proved: C01w_labels_legal_partial (<= 99 ring bonds) and the structural overflow lemma C01w_label_overflow",
-                           "that the rendered token list is re-read by an independent SMILES grammar as the same graph (C01_reader_recovers) is not a theorem: the independent reader of the harness judges the real outputs",
+                           "C01r_reader_recovers (the library's own SMILES parser reads the output back as exactly the graph the decoder built) needs: <= 99 ring bonds and no ring bond joining two '.'-fragments (selfies' parser keeps ring labels per fragment: C01r_cross_fragment_ring_rejected; such output is legal SMILES and is judged by the independent reader of the harness)",
                            "external sanitizer clause: validated with RDKit, cannot be a theorem"]},
     "C02": {"use_props": ["C16"], "extra_modules": ["SelfiesVerif.Proofs.GenEq", "SelfiesVerif.Spec.DerivationExamples"], "extra_theorems": GEN,
             "not_proved": ["C02_decoder_eq at the SMILES-string level (no spec writer); the graph-level refinement C02_graph_eq_general is proved for every result other than RecursionError (finding F2)"]},
     "C03": {"use_props": ["C03p", "C01w"], "not_proved": ["C03p_roundtrip_strings is the string-level statement (hypotheses left: every ring span / branch length < 16^3, nesting depth < recursion budget, input length <= 10^4300); the last step from the decoded graph to the output SMILES string is C01w (writer = pre-order of the forest, atoms in index order) and is not composed with it into one theorem about the output string",
                                                    "aromatic inputs: kekulization is covered by C05 (sound given a perfect matching), not composed here"]},
-    "C04": {"use_props": ["C03"], "not_proved": ["the writer step (neighbour order of the written SMILES = adjacency order) is C01w_writer_eq_spec; C03_neighbour_order + C03_handedness give the graph-level end-to-end statement"]},
+    "C04": {"use_props": ["C03", "C10r"], "not_proved": ["C04_end_to_end (Props/C10r.lean) is the string-level statement; hypotheses as C03p_roundtrip_strings plus <= 99 rings"]},
     "C05": {"use_props": ["C03p"], "not_proved": ["completeness (succeeds whenever an assignment exists) and atom-order independence: not theorems (false in general: finding F9); decided by bounded search",
                            "unconditional soundness of find_perfect_matching is FALSE (C05_soundness_false, finding F9); proved: sound on bipartite graphs, sound whenever every augmenting path found is simple, kekulize sound given a perfect matching",
                            ]},
@@ -29,7 +29,7 @@ STATIC = {
                                                   "the recursion threshold of the model (limit - 40) is approximate for the real interpreter"]},
     "C09": {"use_props": ["C06"], "not_proved": ["full-strength C09 (EncoderError only) is FALSE: RecursionError on deep nesting (finding F2, C09_recursionError_witness); proved: C09_total_partial (ok / EncoderError / RecursionError only, for every str, flags and every legal choice tape; every other failure branch unreachable, all loops terminate, also downstream of a non-matching: the F9 analysis) and C09_no_recursion_error_if_shallow",
                                                   "the choice tape must be legal (TapeOK: each entry is a member of the set it is popped from); the real set.pop() always is"]},
-    "C10": {"use_props": ["C16", "C03", "C03p", "C14e"], "not_proved": ["C10_reencode_stable (encode(decode(encode s)) = encode s): not a theorem; needs parser(writer(g)) = g on top of C03_roundtrip; decided on the real code by the chain oracle",
+    "C10": {"use_props": ["C10r", "C16", "C03p", "C14e"], "not_proved": ["C10_reencode_stable is proved under: ring spans / branch lengths < 16^3, nesting depth < recursion budget, input length <= 10^4300, <= 99 ring bonds",
                                                   "C10_atom_symbol_accepted needs token length <= 10^4300 (C10_atom_symbol_length_bound_needed)"]},
     "C11": {"use_props": ["C12", "C19"], "not_proved": ["the decoder/encoder models take the table as a parameter; that the real translators read the table only through get_bonding_capacity is tied by the history correspondence and the fresh-interpreter oracle",
                                                          "cross-process determinism: observation only"]},
